@@ -83,7 +83,7 @@ theorem log_fault_syntax_same (l : LitTy) (ignoreUnknown : Bool) (b more : VByte
 
 /-- `"p cnf 2 2\n1 2 0\n-1"` from a failing source: header and first clause are handed out, then
 the I/O error; the fault-free run over `… ++ " 0\n"` returns the same header, the same first
-clause and one more.  A syntax error in the delivered part (`"1 x"`) is the outcome of both
+clause and one more.  A syntax error in the delivered part (`"1 x 0\n"`) is the outcome of both
 runs. -/
 example :
     (parseAll .cnf ⟨32⟩ false (LR.init
@@ -98,8 +98,10 @@ example :
     (parseAll .cnf ⟨32⟩ false (LR.init
       [112, 32, 99, 110, 102, 32, 50, 32, 50, 10, 49, 32, 50, 32, 48, 10, 45, 49, 32, 48, 10]
         false)).items = [{ tag := 0, lits := [1, 2] }, { tag := 0, lits := [-1] }] ∧
-    (parseAll .cnf ⟨32⟩ false (LR.init [49, 32, 120] true)).final = some (.syn 1 3) ∧
-    (parseAll .cnf ⟨32⟩ false (LR.init [49, 32, 120, 10] false)).final = some (.syn 1 3) := by
+    (parseAll .cnf ⟨32⟩ false (LR.init [49, 32, 120, 32, 48, 10] true)).final =
+      some (.syn 1 3) ∧
+    (parseAll .cnf ⟨32⟩ false (LR.init [49, 32, 120, 32, 48, 10, 50, 32, 48, 10] false)).final =
+      some (.syn 1 3) := by
   decide +kernel
 
 end Flussab.C04
